@@ -126,6 +126,18 @@ def judge(ctx, case, stream, opts, scripting, label):
         strict_raised = True
     except Exception:
         strict_raised = None
+    # the same serializer object used again (after a possibly aborted strict run) must produce the same output and errors
+    try:
+        s2.strict = False
+        out_again = s2.render(streams.copy_tokens(stream), enc) if enc else s2.render(streams.copy_tokens(stream))
+        ctx.count("reused_serializer_compared")
+        if out_again != out or list(s2.errors) != errs:
+            ctx.violation("reused-serializer-differs", case, "%s: second use of the serializer object after a strict run: output %s, errors %r vs %r" % (
+                label, "equal" if out_again == out else "differs", list(s2.errors)[:2], errs[:2]))
+            return
+    except Exception as e:
+        ctx.violation("reused-serializer-raised", case, "%s: %r" % (label, e))
+        return
     if strict_raised is not None and strict_raised != bool(errs):
         ctx.violation("strict-vs-errors-disagree", case, "%s: errors=%r strict raised=%r" % (label, errs[:2], strict_raised))
         return
